@@ -42,6 +42,16 @@ struct Exact {
 
 static inline B tape_bytes(Tape &t, size_t n) { return t.vec(n); }
 static inline std::string hx(const B &b, size_t max = 600) { return vf::hex(b.data(), b.size(), max); }
+// hex with runs of >= 6 equal bytes collapsed ("ff*90"), so padded blocks stay readable and short
+static inline std::string hxc(const B &b) {
+    std::string s; char tmp[32];
+    for (size_t i = 0; i < b.size();) {
+        size_t j = i; while (j < b.size() && b[j] == b[i]) j++;
+        if (j - i >= 6) { snprintf(tmp, sizeof tmp, "[%02x*%zu]", b[i], j - i); s += tmp; i = j; }
+        else { snprintf(tmp, sizeof tmp, "%02x", b[i]); s += tmp; i++; }
+    }
+    return s;
+}
 static inline B cat(const B &a, const B &b) { B r(a); r.insert(r.end(), b.begin(), b.end()); return r; }
 static inline B cat(std::initializer_list<B> l) { B r; for (auto &x : l) r.insert(r.end(), x.begin(), x.end()); return r; }
 
